@@ -5,6 +5,8 @@ package c17
 // resulting block list is written to a history file and replayed verbatim by every other execution.
 
 import (
+	storetypes "cosmossdk.io/store/types"
+	channeltypes "github.com/cosmos/ibc-go/v8/modules/core/04-channel/types"
 	"encoding/hex"
 	"fmt"
 	"math/big"
@@ -97,6 +99,8 @@ type gen struct {
 	relayer  detx.Key
 	ibcStep  int       // next step of the channel handshake
 	relayQ   []sdk.Msg // relay messages for the next block
+	vlists   [][2]string // validatorList(missed) probes: op line, observation
+	unrelayed, timedOut []channeltypes.Packet // sent packets that are never delivered / were timed out already
 
 	seq          map[string]uint64
 	pend         []pendingTx
@@ -753,6 +757,32 @@ func (g *gen) run() {
 		}, 0)
 		s2f = append(s2f, n3)
 	}
+	// the SECOND chain (bsc): the same kinds of events through the same keeper code with another module name / store /
+	// address format table entry; accepted when the bsc proposal passed (seeded) and its two oracles bonded, refused
+	// otherwise (both are deterministic outcomes to compare)
+	bscToken := "0x" + strings.Repeat("b5", 20)
+	bscNonce, bscHeight := uint64(0), uint64(1000)
+	bscClaimAll := func(mk func(b string, n, h uint64) crosschaintypes.ExternalClaim) {
+		bscNonce++
+		bscHeight += uint64(1 + g.rng.Intn(9))
+		for _, i := range g.rng.Perm(2) {
+			g.injectMsg(&crosschaintypes.MsgClaim{ChainName: "bsc", BridgerAddress: g.bridgers[i].Addr(), Claim: mustAny(mk(g.bridgers[i].Addr(), bscNonce, bscHeight))})
+		}
+	}
+	bscClaimAll(func(b string, n, h uint64) crosschaintypes.ExternalClaim {
+		return &crosschaintypes.MsgBridgeTokenClaim{EventNonce: n, BlockHeight: h, TokenContract: bscToken, Name: "Function X", Symbol: fxtypes.DefaultDenom,
+			Decimals: 18, BridgerAddress: b, ChainName: "bsc"}
+	})
+	for k := 0; k < 1+g.rng.Intn(3); k++ {
+		recv, amt := g.anyUser(), sdkmath.NewInt(int64(1+g.rng.Intn(900))).MulRaw(1e18)
+		bscClaimAll(func(b string, n, h uint64) crosschaintypes.ExternalClaim {
+			return &crosschaintypes.MsgSendToFxClaim{EventNonce: n, BlockHeight: h, TokenContract: bscToken, Amount: amt, Sender: g.ext[0], Receiver: recv.Addr(),
+				TargetIbc: "", BridgerAddress: b, ChainName: "bsc"}
+		})
+	}
+	bu := g.anyUser()
+	g.txMaybeTight(bu, &crosschaintypes.MsgSendToExternal{Sender: bu.Addr(), Dest: g.ext[1], Amount: fxFrac(int64(100 + g.rng.Intn(900))),
+		BridgeFee: fxFrac(int64(1 + g.rng.Intn(9))), ChainName: "bsc"})
 	g.endBlock(short, "oracle-set-updated + send-to-fx claims")
 
 	// ---- phase 5: EVM -> precompiles: executeClaim (crosschain), delegateV2 (staking), crossChain
@@ -774,8 +804,37 @@ func (g *gen) run() {
 	data, err = stakingABI.Pack("delegateV2", g.valAddr(), fx(3).Amount.BigInt())
 	must(err)
 	g.eth(g.ethUser(), "staking.delegateV2(low-gas)", "", st, nil, 60_000, data)
+	// the rest of the staking precompile, by one delegator: views whose RETURN DATA is observed (validatorList sorts the
+	// bonded validators by missed blocks with an unstable sort and a comparator that leaves ties — all counters are equal
+	// here, so the order is whatever sort.Slice makes of the store order), share approval / transfer, reward withdrawal,
+	// undelegation, redelegation
+	du, dv := g.users[0], g.vals[g.rng.Intn(len(g.vals))].Oper.Val().String()
+	dv2 := g.vals[(g.rng.Intn(len(g.vals)-1)+1)%len(g.vals)].Oper.Val().String()
+	stk := func(kind string, gas uint64, method string, args ...interface{}) {
+		d, err := stakingABI.Pack(method, args...)
+		must(err)
+		g.eth(du, "staking."+kind, "", st, nil, gas, d)
+	}
+	stk("delegateV2(own)", 2_000_000, "delegateV2", dv, fx(100).Amount.BigInt())
+	for _, sortBy := range []uint8{1, 0, 1, uint8(2 + g.rng.Intn(3))} {
+		stk(fmt.Sprintf("validatorList(%d)", min(int(sortBy), 2)), 2_000_000, "validatorList", sortBy)
+	}
+	stk("delegation", 2_000_000, "delegation", dv, du.Hex())
+	stk("delegationRewards", 2_000_000, "delegationRewards", dv, du.Hex())
+	stk("slashingInfo", 2_000_000, "slashingInfo", dv)
+	stk("withdraw", 2_000_000, "withdraw", dv)
+	stk("approveShares", 2_000_000, "approveShares", dv, g.users[2].Hex(), fx(int64(1+g.rng.Intn(20))).Amount.BigInt())
+	stk("allowanceShares", 2_000_000, "allowanceShares", dv, du.Hex(), g.users[2].Hex())
+	stk("transferShares", 2_000_000, "transferShares", dv, g.users[4].Hex(), fx(int64(1+g.rng.Intn(10))).Amount.BigInt())
+	stk("transferShares(too-many)", 2_000_000, "transferShares", dv, g.users[4].Hex(), fx(5_000).Amount.BigInt())
+	stk("undelegateV2", 2_000_000, "undelegateV2", dv, fx(int64(1+g.rng.Intn(5))).Amount.BigInt())
+	if dv2 != dv {
+		stk("redelegateV2", 2_000_000, "redelegateV2", dv, dv2, fx(int64(1+g.rng.Intn(5))).Amount.BigInt())
+	}
+	stk("withdraw(low-gas)", uint64(30_000+g.rng.Intn(40_000)), "withdraw", dv)
 	g.ibcTraffic(1 + g.rng.Intn(3))
 	g.endBlock(short, "evm precompiles")
+	g.probeValidatorList()
 
 	// ---- phase 6: power changes -> oracle set requests through the PowerDiff path
 	g.tx(g.oracles[1], &crosschaintypes.MsgAddDelegate{ChainName: ethChain, OracleAddress: g.oracles[1].Addr(), Amount: fx(int64(1 + g.rng.Intn(200)))})
@@ -1094,6 +1153,7 @@ func (g *gen) run() {
 	from := g.anyUser()
 	g.tx(from, banktypes.NewMsgSend(from.Acc(), g.anyUser().Acc(), sdk.NewCoins(fxFrac(5))))
 	g.endBlock(short, "final")
+	g.probeValidatorList()
 	ctx := g.c.Ctx()
 	online, offline := 0, 0
 	for _, o := range eth.GetAllOracles(ctx, false) {
@@ -1109,6 +1169,84 @@ func (g *gen) run() {
 		fmt.Printf("final: oracles online=%d offline=%d oracle-set-nonce=%d observed-event-nonce=%d slashed-at=%d\n", online, offline,
 			eth.GetLatestOracleSetNonce(ctx), eth.GetLastObservedEventNonce(ctx), eth.GetLastOracleSlashBlockHeight(ctx))
 	}
+}
+
+// probeValidatorList executes the staking precompile's validatorList(missed) on a discarded branch of the committed state
+// (a really signed MsgEthereumTx through the EVM message server) and records, for the Lean model, the bonded validators
+// with their missed-block counters in STORE order (the input of the sort) and in the returned order: the model checks the
+// contract of a sort for the regenerated comparator (a permutation without inversions) — the order among equal counters is
+// the algorithm's and is compared between the replicas only.
+func (g *gen) probeValidatorList() {
+	stakingABI := fxstakingtypes.GetABI()
+	data, err := stakingABI.Pack("validatorList", uint8(fxstakingtypes.ValidatorSortByMissed))
+	must(err)
+	k := g.users[0]
+	_, sq := g.nextSeq(k)
+	st := common.HexToAddress(contract.StakingAddress)
+	msg, err := detx.SignEthMsg(chainID, detx.EthTx{Signer: k, Nonce: sq, To: &st, Gas: 2_000_000, Data: data})
+	must(err)
+	ctx, _ := g.c.Ctx().CacheContext()
+	ctx = ctx.WithEventManager(sdk.NewEventManager()).WithBlockGasMeter(storetypes.NewInfiniteGasMeter())
+	resp, err := g.c.App.EvmKeeper.EthereumTx(ctx, msg)
+	if err != nil || resp.VmError != "" {
+		g.out.Count("validatorlist-probe:failed")
+		return
+	}
+	outs, err := stakingABI.Unpack("validatorList", resp.Ret)
+	if err != nil || len(outs) != 1 {
+		g.out.Count("validatorlist-probe:bad-output")
+		return
+	}
+	got, ok := outs[0].([]string)
+	if !ok {
+		g.out.Count("validatorlist-probe:bad-output")
+		return
+	}
+	missed := func(oper string) (int64, bool) {
+		va, err := sdk.ValAddressFromBech32(oper)
+		if err != nil {
+			return 0, false
+		}
+		v, err := g.c.App.StakingKeeper.GetValidator(ctx, va)
+		if err != nil {
+			return 0, false
+		}
+		ca, err := v.GetConsAddr()
+		if err != nil {
+			return 0, false
+		}
+		info, err := g.c.App.SlashingKeeper.GetValidatorSigningInfo(ctx, ca)
+		if err != nil {
+			return 0, false
+		}
+		return info.MissedBlocksCounter, true
+	}
+	bonded, err := g.c.App.StakingKeeper.GetLastValidators(ctx)
+	if err != nil {
+		return
+	}
+	var in, outl []string
+	distinct := map[int64]bool{}
+	for _, v := range bonded {
+		m, ok := missed(v.OperatorAddress)
+		if !ok {
+			return
+		}
+		distinct[m] = true
+		in = append(in, fmt.Sprintf("%s:%d", v.OperatorAddress, m))
+	}
+	for _, a := range got {
+		m, ok := missed(a)
+		if !ok {
+			return
+		}
+		outl = append(outl, fmt.Sprintf("%s:%d", a, m))
+	}
+	if len(in) == 0 || len(outl) == 0 {
+		return
+	}
+	g.vlists = append(g.vlists, [2]string{"checksorted " + strings.Join(in, ",") + " | " + strings.Join(outl, ","), "sorted-permutation"})
+	g.out.Count(fmt.Sprintf("validatorlist-probe: validators=%d distinct-counters=%d", len(in), len(distinct)))
 }
 
 // oracleDrops returns two new oracle lists for MsgUpdateChainOracles: (a) the current list without as many of the
